@@ -373,6 +373,19 @@ class OneQubitOperationBase(OperationBase):
         self._update_q_reg(q_reg)
         self.register = q_reg[0]
 
+    @OperationBase.q_registers_type.setter
+    def q_registers_type(self, q_regs_type):
+        """
+        Handle to modify the register types on which the operation acts. This also automatically updates the
+        self.reg_type field
+
+        :param q_regs_type: the new q_registers_type value to set
+        :return: nothing
+        :rtype: None
+        """
+        self._q_registers_type = q_regs_type
+        self.reg_type = q_regs_type[0]
+
 
 class InputOutputOperationBase(OperationBase):
     """
@@ -427,6 +440,20 @@ class InputOutputOperationBase(OperationBase):
         """
         self._update_q_reg(q_reg)
         self.register = q_reg[0]
+
+    @OperationBase.q_registers_type.setter
+    def q_registers_type(self, q_regs_type):
+        """
+        Handle to modify the register types on which the operation acts. This also automatically updates the
+        self.reg_type field, if the I/O is quantum
+
+        :param q_regs_type: the new q_registers_type value to set
+        :return: nothing
+        :rtype: None
+        """
+        self._q_registers_type = q_regs_type
+        if len(q_regs_type) > 0:
+            self.reg_type = q_regs_type[0]
 
     @OperationBase.c_registers.setter
     def c_registers(self, c_reg):
@@ -499,6 +526,20 @@ class ControlledPairOperationBase(OperationBase):
         self.control = q_reg[0]
         self.target = q_reg[1]
 
+    @OperationBase.q_registers_type.setter
+    def q_registers_type(self, q_regs_type):
+        """
+        Handle to modify the register types on which the operation acts. This also automatically updates the
+        self.control_type, self.target_type fields
+
+        :param q_regs_type: the new q_registers_type value to set
+        :return: nothing
+        :rtype: None
+        """
+        self._q_registers_type = q_regs_type
+        self.control_type = q_regs_type[0]
+        self.target_type = q_regs_type[1]
+
 
 class ClassicalControlledPairOperationBase(OperationBase):
     """
@@ -565,6 +606,20 @@ class ClassicalControlledPairOperationBase(OperationBase):
         self._update_q_reg(q_reg)
         self.control = q_reg[0]
         self.target = q_reg[1]
+
+    @OperationBase.q_registers_type.setter
+    def q_registers_type(self, q_regs_type):
+        """
+        Handle to modify the register types on which the operation acts. This also automatically updates the
+        self.control_type, self.target_type fields
+
+        :param q_regs_type: the new q_registers_type value to set
+        :return: nothing
+        :rtype: None
+        """
+        self._q_registers_type = q_regs_type
+        self.control_type = q_regs_type[0]
+        self.target_type = q_regs_type[1]
 
     @OperationBase.c_registers.setter
     def c_registers(self, c_reg):
@@ -996,6 +1051,19 @@ class MeasurementZ(OperationBase):
         """
         self._update_q_reg(q_reg)
         self.register = q_reg[0]
+
+    @OperationBase.q_registers_type.setter
+    def q_registers_type(self, q_regs_type):
+        """
+        Handle to modify the register types on which the operation acts. This also automatically updates the
+        self.reg_type field
+
+        :param q_regs_type: the new q_registers_type value to set
+        :return: nothing
+        :rtype: None
+        """
+        self._q_registers_type = q_regs_type
+        self.reg_type = q_regs_type[0]
 
     @OperationBase.c_registers.setter
     def c_registers(self, c_reg):
